@@ -290,7 +290,7 @@ class World:
     PROBES_EXPECTED = [
         "overwrite", "overwrite-shorter", "overwrite-other-kind", "torn-file-load", "semantic-compared", "dict-roundtrip",
         "set-roundtrip", "custom-gate", "wrapper-depth>=3", "indexed-symbol", "sympy-named-symbol", "empty-circuit",
-        "idle-qubits", "via-handle", "via-bytes", "via-pathlike", "float-param", "exp-wrapper", "pow-wrapper",
+        "idle-qubits", "custom-gate-alt-definition", "via-handle", "via-bytes", "via-pathlike", "float-param", "exp-wrapper", "pow-wrapper",
     ]
 
     # ------------------------------------------------------------ generation
@@ -307,6 +307,8 @@ class World:
             exclude=cfg.get("exclude", ()),
         )
         self._strip_pi_constants(c)
+        if r.random() < 0.3:
+            c["cv"] = 1   # same custom gate names, other definitions (definitions are per circuit)
         if r.random() < 0.2:
             c["n"] = max(c.get("n", 0), n + r.randint(1, 2))  # idle qubits on top
         return c
@@ -461,6 +463,8 @@ class World:
                     ctx.probe("wrapper-depth>=3")
                 if "custom" in g:
                     ctx.probe("custom-gate")
+                    if spec.get("cv"):
+                        ctx.probe("custom-gate-alt-definition")
                 for p in g.get("p", []):
                     if isinstance(p, float):
                         ctx.probe("float-param")
@@ -581,7 +585,10 @@ def _shrink_circuit(c):
         rest = ops[:i] + ops[i + 1:]
         n = c.get("n")
         need = max([max(o["q"]) for o in rest] + [-1]) + 1
-        yield {"ops": rest, "n": max(n or 0, need) or None} if (n or not rest) else {"ops": rest}
+        base = {k: v for k, v in c.items() if k not in ("ops", "n")}
+        yield {**base, "ops": rest, "n": max(n or 0, need) or None} if (n or not rest) else {**base, "ops": rest}
+    if c.get("cv"):
+        yield {k: v for k, v in c.items() if k != "cv"}
     for i, o in enumerate(ops):
         for g2 in _shrink_gate(o["gate"]):
             k_old, k_new = gen.gate_arity(o["gate"]), gen.gate_arity(g2)
